@@ -297,9 +297,15 @@ def combine1fiber(inloglam, objflux, newloglam, objivar=None, verbose=False,
                     # Conserve inverse variance by doing a linear interpolation
                     # on that quantity.
                     #
+                    if objivar is None:
+                        #
+                        # No inverse variance supplied: unit weights.
+                        #
+                        theseivar = np.ones(these.shape, dtype=inloglam.dtype)
+                    else:
+                        theseivar = objivar.ravel()[these]
                     result = np.interp(newloglam[jnbetween], inloglam_r[these],
-                                       (objivar.ravel()[these] *
-                                        fullcombmask[these]))
+                                       theseivar * fullcombmask[these])
                     #
                     # Grow the fullcombmask below to reject any new sampling
                     # containing even a partial masked pixel.
